@@ -539,6 +539,8 @@ func (m *Manager) PruneBlocks(height uint64) {
 	m.mu.Lock()
 	defer m.mu.Unlock()
 
+	// there is nothing to prune above the tip
+	height = min(height, m.tipState.Index.Height+1)
 	for h := height; h > 0; h-- {
 		index, ok := m.store.BestIndex(h - 1)
 		if !ok {
